@@ -174,7 +174,7 @@ def mode_guards():
                 ok = strict_only and raises and not iff.orelse
                 detail = f"if {test[:90]}: ... {'raise' if raises else 'NO RAISE'}{' else: ...' if iff.orelse else ''}"
             obs.append(flow.ob(f"{where}:mode-only-guards-a-raise", ok, detail, replay_schema="code", replay_extra={"code": REPLAY}))
-    obs.append(flow.ob("mode-reads-found", n >= 8, f"{n} reads of the tolerance mode"))
+    obs.append(flow.ob("mode-reads-found", n >= 3, f"{n} reads of the tolerance mode"))
     return obs
 
 
